@@ -8,7 +8,7 @@ echo "== $id in $wt"
 git stash -q 2>/dev/null; git stash pop -q 2>/dev/null
 git diff --stat -- src include | tail -3
 echo "-- build+suite with patch"
-(make -j8 > /dev/null 2>&1 && make -j8 check 2>&1 | grep -E "^# (PASS|FAIL|ERROR)") 
+(make -j8 > /dev/null 2>&1 && timeout 900 make -j8 check 2>&1 | grep -E "^# (PASS|FAIL|ERROR)") 
 echo "-- demo with patch"
 (cd seeded && timeout 900 bash ./run_demo.sh > /tmp/demo_${id}_with.log 2>&1; echo "demo_with_rc=$?")
 echo "-- revert, rebuild, demo without patch"
